@@ -171,6 +171,7 @@ func entry(resource string, options *EntryOptions) (*base.SentinelEntry, *base.B
 	r := sc.Entry(ctx)
 	if r == nil {
 		// This indicates internal error in some slots, so just pass
+		sc.EntryPassedOnPanic(ctx)
 		return e, nil
 	}
 	if r.Status() == base.ResultStatusBlocked {
